@@ -230,7 +230,8 @@ theorem bProperty_usesOk (c : Ctx) (np : List Str) (io : Bool) (n : Nat) :
       rw [bProperty]
       cases hr : (bField c np (toCamel name) items).res with
       | none => exact ih.1.add UsesOk.err
-      | some r => exact finishProperty_usesOk _ _ _ _ _ _ _ _ _ ih.1
+      | some r =>
+        exact finishProperty_usesOk _ _ _ _ _ _ _ _ _ ((ih.1.add UsesOk.j5Ext).add (UsesOk.validate _))
     | array items rules =>
       have ih := bField_usesOk c np (toCamel name) items
       rw [bProperty]
